@@ -26,7 +26,7 @@ func run(c *lib.Ctx) {
 	c.Rule("A: sequences of typed fields (int32/int64/bool/bytes/pointer/utf16/cstring) over boundary and random values x 0..16 trailing bytes x every truncation, encoded by the reference Demon encoder and read back by the real parser; " +
 		"B: one callback per layout carrying unique marker values, sent through a real listener; C: registration histories over boundary agent ids. " +
 		"distinct = distinct (type sequence, values, trailing count) / (layout, markers) / history; non-trivial = at least one field resp. one accepted callback resp. two steps")
-	c.Assume("reference encoder written from payloads/Demon/src/core/Package.c", "C strings are compared modulo trailing terminators only (domain: no leading/interior NUL)",
+	c.Assume("reference encoder written from payloads/Demon/src/core/Package.c", "C strings are compared modulo trailing terminators only (domain: no leading NUL; NUL bytes inside the string are part of it)",
 		"console markers are looked up in the arguments of AgentConsole at the agent.TeamServer interface (the broadcast path is C11's)")
 	if c.Replay != nil {
 		replay(c)
@@ -320,8 +320,18 @@ func randField(r *rand.Rand, kinds []string) field {
 			f.B = longText(r)
 		}
 		if t == "s" {
-			// C strings: no NUL at all (the domain excludes leading/interior NUL)
+			// byte strings shown as text: terminators at either end are stripped by the reader
+			// (the domain excludes leading NUL), NUL bytes inside stay (output of a binary
+			// file, NUL-separated lists)
 			f.B = string(bytes.ReplaceAll([]byte(f.B), []byte{0}, []byte{'0'}))
+			if len(f.B) >= 2 && r.Intn(6) == 0 {
+				b := []byte(f.B)
+				for k := 0; k < 1+r.Intn(3); k++ {
+					i := 1 + r.Intn(len(b)-1)
+					b = append(b[:i], append([]byte{0}, b[i:]...)...)
+				}
+				f.B = string(b)
+			}
 		}
 	}
 	return f
@@ -342,6 +352,9 @@ func parserA(c *lib.Ctx) {
 		}
 		for _, f := range cs.Fields {
 			c.Observe("A.field."+f.T, 1)
+			if f.T == "s" && bytes.IndexByte([]byte(f.B), 0) > 0 {
+				c.Observe("A.field.s-with-NUL-inside", 1)
+			}
 			if (f.T == "w" || f.T == "s") && len(f.B) > 200 {
 				c.Observe("A.field.text>=256-units-with-pairs-at-block-ends", 1)
 			}
